@@ -34,6 +34,13 @@ LEMMAS = [
           "len(VARINT(v)) == k and k <= 10 and implies(v >= (1 << 63), k == 10)",
           use=[("VARINT_LEN", {"v": "v"}), ("NB_BOUNDS", {"v": "v", "k": "k"})], props=["C16"],
           notes="negatives (U64 >= 2**63) take exactly 10 bytes; nothing in the 64-bit domain takes more"),
+    LEMMA("SLICE_TAIL", {"d": "bytes", "p": "int", "q": "int"}, ["0 <= p < q <= len(d)"],
+          "d[p:q][1:] == d[p + 1:q] and d[p:q][0] == d[p] and len(d[p:q]) == q - p",
+          props=["C08", "C10", "C17"], notes="pure sequence fact used to unfold head-first spec functions on slices"),
+    LEMMA("VLEN_UNIQUE", {"s": "bytes", "k": "int"}, ["1 <= k <= len(s)", "VWF(s[:k])"], "VLEN(s) == k",
+          measure="k", ih=[("k > 1", {"s": "s[1:]", "k": "k - 1"})],
+          props=["C16", "C08", "C10", "C17"],
+          notes="a well-formed varint prefix is the unique first varint of the buffer"),
     LEMMA("VDEC_LAST", {"s": "bytes"}, ["1 <= len(s) <= 10"],
           "VDEC(s) == VDEC(s[:len(s) - 1]) + ((s[len(s) - 1] % 128) << (7 * (len(s) - 1)))",
           measure="len(s)", ih=[("len(s) > 1", {"s": "s[1:]"})], props=["C16", "C02"],
@@ -100,7 +107,8 @@ CONTRACTS = [
            ("raw-is-consumed", "result[1] == D0[P0:P0 + len(result[1])] and stream.pos == P0 + len(result[1])"
                                " and P0 + len(result[1]) <= len(D0)"),
            ("wellformed", "VWF(result[1])"),
-           ("C16-value", "result[0] == VDEC(result[1])"),
+           ("C16-value", "result[0] == VDEC(result[1]) and result[0] >= 0"),
+           ("first-varint", "len(result[1]) == VLEN(D0[P0:])"),
        ],
        top=["C16-value", "raw-is-consumed", "wellformed"],
        raises=[
@@ -115,8 +123,11 @@ CONTRACTS = [
                            ("pos", "stream.pos == P0 + k and stream.data == D0")],
                       decreases="10 - k",
                       use=[("VDEC_LAST", {"s": "raw"}), ("CONT_LAST", {"s": "raw"})])},
+       on_raise=[("EOFError", "stream.pos == len(D0) and stream.data == D0"),
+                 ("ValueError", "stream.pos == P0 + 10 and stream.data == D0")],
        use=[("CONT_NTH", {"s": "D0[P0:P0 + 10]", "i": "k"}), ("CONT_NTH", {"s": "D0[P0:]", "i": "k"}),
-            ("CONT_LAST", {"s": "result[1]"}), ("VDEC_LAST", {"s": "result[1]"})],
+            ("CONT_LAST", {"s": "result[1]"}), ("VDEC_LAST", {"s": "result[1]"}),
+            ("VLEN_UNIQUE", {"s": "D0[P0:]", "k": "len(result[1])"}), ("VDEC_BOUND", {"s": "result[1]"})],
        props=["C16", "C01", "C02", "C10", "C17"],
        witness={"stream": b"\xac\x02rest"}),
     FN("betterproto.decode_varint",
@@ -126,6 +137,7 @@ CONTRACTS = [
            ("C16-consumed", "pos < result[1] <= pos + 10 and result[1] <= len(buffer)"),
            ("C16-value", "result[0] == VDEC(buffer[pos:result[1]])"),
            ("wellformed", "VWF(buffer[pos:result[1]])"),
+           ("first-varint", "result[1] == pos + VLEN(buffer[pos:]) and result[0] >= 0"),
        ],
        top=["C16-value", "C16-consumed"],
        raises=[
